@@ -1098,6 +1098,15 @@ class DataStoreMachine(StoreMachine):
                 dat._sections = cand
                 ctx.probes['sections_permuted'] += 1
                 break
+        if dat.type == 'TOUGH2' and not dat.solver and rng.random() < 0.35:
+            # ... and the model is handed to the other flavour by naming a simulator: the SIMUL
+            # section has to come first wherever the others are
+            dat.simulator = 'AUTOUGH2.2'
+            quantize_xp(dat)
+            if dat.multi:
+                dat.multi.pop('num_inc', None)
+                dat.multi['eos'] = 'EW'
+            ctx.probes['flavour_switched_to_AUTOUGH2'] += 1
         ctx.fp.append(('P',))
         ctx.digest.add('PERMUTE', dat._sections)
 
